@@ -135,6 +135,13 @@ def smchart_writer_fields(ctx: Ctx) -> None:
         elif isinstance(x, ast.Subscript) and isinstance(x.value, ast.Name) and x.value.id == sn:
             key = try_ev(ctx, fi, x.slice)
         if not isinstance(key, str):
+            # a field that is transformed on its way out (x.splitlines(), x.strip(), x.replace(..) ...) is not the field's own text any more
+            inner = [a for n in ast.walk(x) for a in [self_attr(n, sn)] if a is not None and a in desc]
+            if isinstance(x, (ast.Call, ast.BinOp, ast.Subscript)) and inner:
+                ctx.bad("R-TABLE", fi, f"component {i} is the chart field itself", f"component {i} is {src(x, 80)}: the field {desc[inner[0]].key} is rewritten while it is serialized "
+                        "(line breaks, blanks or other characters of the stored value change), so the text no longer loads back to the same value", node=call)
+                keys.append(desc[inner[0]].key)
+                continue
             raise AnalysisError(f"{fi.fq}: component {i} is not a chart field: {src(x)}")
         keys.append(key)
         ctx.expect("R-WS", fi, f"decoration of field {key} is whitespace", lits.strip() == "",
@@ -470,18 +477,36 @@ def _truthy(fs, var: ast.expr) -> bool:
 
 
 def str_is_serialize(ctx: Ctx) -> None:
-    """str(obj) is exactly what serialize() writes (mutate's backup/output text and the 'second save' clause rely on it)."""
-    from ..pat import match
+    """str(obj) is exactly what serialize() writes (mutate's backup/output text and the 'second save' clause rely on it): on every path a NEW
+    StringIO() is created, handed to self.serialize(), and its getvalue() returned - nothing else (no buffer kept between calls, no rewinding,
+    no post-processing of the text)."""
+    import re as _re
+    from .tables import closed, sums_of as tsums
     p = ctx.p
     f = p.func("simfile._private.serializable:Serializable.__str__")
     sn = f.param_names()[0]
-    loc = locals_of(f)
-    bufs = [n for n, bs in loc.b.items() for b in bs if b.kind == "assign" and isinstance(b.value, ast.Call) and callee_name(ctx, f, b.value).endswith("StringIO") and not b.value.args and not b.value.keywords]
-    ok = len(bufs) == 1
-    if ok:
-        b = bufs[0]
-        sc = [c for c in calls(f) if match("$s.serialize($b)", c) is not None and ast.unparse(c.func.value) == sn and ast.unparse(c.args[0]) == b]
-        rr = [r for r in body_walk(f.node) if isinstance(r, ast.Return)]
-        cfg = ctx.cfg(f)
-        ok = len(sc) == 1 and len(rr) == 1 and ast.unparse(rr[0].value) == f"{b}.getvalue()" and cfg.dominates(cfg_node_of(cfg, f, sc[0]), cfg_node_of(cfg, f, rr[0]))
-    ctx.expect("R-TABLE", f, "str(x) returns exactly the text x.serialize() writes into a fresh buffer", ok, "", "Serializable.__str__ no longer returns the unmodified getvalue() of the buffer passed to serialize()", node=f.node)
+    seen = set()
+    for s_ in tsums(ctx, f):
+        toks = []
+        buf = None
+        for i, e in enumerate(s_.effects):
+            if e.kind == "bind" and isinstance(e.target, ast.Name) and e.value is not None and ast.unparse(e.value) in ("StringIO()", "io.StringIO()") and buf is None:
+                buf = e.target.id
+                toks.append("BUF := StringIO()")
+            elif e.kind == "with" and isinstance(e.target, ast.Call) and ast.unparse(e.target) in ("StringIO()", "io.StringIO()") and isinstance(e.value, ast.Name) and buf is None:
+                buf = e.value.id
+                toks.append("BUF := StringIO()")
+            elif e.kind == "bind" and isinstance(e.target, ast.Name) and not e.opaque:
+                continue
+            elif e.kind == "return":
+                v = closed(s_, e.value, i, keep=[buf] if buf else []) if e.value is not None else None
+                toks.append("return " + (ast.unparse(v) if v is not None else "None"))
+            else:
+                toks.append(e.text)
+        conds = sorted(s_.plain_assign())
+        fix = (lambda t, b=buf: _re.sub(rf"\b{_re.escape(b)}\b", "BUF", t)) if buf else (lambda t: t)
+        seen.add((tuple(fix(t) for t in toks), tuple(conds)))
+    want = {(("BUF := StringIO()", f"{sn}.serialize(BUF)", "return BUF.getvalue()"), ())}
+    ctx.expect("R-TABLE", f, "str(x) returns exactly the text x.serialize() writes into a fresh buffer", seen == want, f"{len(seen)} path shape(s)",
+               f"Serializable.__str__ does {sorted(seen)}: expected a new StringIO(), {sn}.serialize(<it>), return <it>.getvalue() and nothing else - a buffer that outlives the call keeps the tail of "
+               "a longer earlier text, a translated or trimmed text is not what serialize() wrote", node=f.node)
